@@ -108,17 +108,32 @@ func checkSweepBeforeSelect(c *Ctx, rule string) {
 			}
 			for _, ci := range allCalls(fn, func(ci ssa.CallInstruction) bool {
 				f := ci.Common().StaticCallee()
-				if f == nil {
+				if f == nil || !IsModuleFunc(f) {
 					return false
 				}
+				// the callee holds a candidate selection itself or through the package functions it calls (the choice
+				// of leasing statement may sit in a step of its own); a search, not a root for the T1 audit
+				was := p.auditing
+				p.auditing = true
+				defer func() { p.auditing = was }()
+				reachF := p.Reach(f)
 				for _, s := range cands {
-					if s.Fn == f {
+					if s.Fn == f || (s.Fn != nil && reachF[s.Fn] && f != fn) {
 						return true
 					}
 				}
 				return false
 			}) {
-				candSites = append(candSites, ci)
+				// not the sweep call itself
+				isExp := false
+				for _, ec := range expCalls {
+					if ec == ci {
+						isExp = true
+					}
+				}
+				if !isExp {
+					candSites = append(candSites, ci)
+				}
 			}
 			if len(expCalls) == 0 || len(candSites) == 0 {
 				continue
